@@ -370,6 +370,11 @@ int janet_scan_number_base(
             if (*str > 127 || digit >= exp_base) goto error;
             if (ee < (INT32_MAX / 40)) {
                 ee = exp_base * ee + digit;
+            } else {
+                /* Saturate instead of dropping digits: the mantissa can shift the
+                 * exponent by up to 4 * (INT32_MAX / 40), so the clamped value must
+                 * dominate that (and still not overflow when added to ex). */
+                ee = INT32_MAX / 4;
             }
             str++;
             seenadigit = 1;
